@@ -1,5 +1,247 @@
-import BioCantor.Model.GenbankWrite
-import BioCantor.Model.GenbankParse
+/-
+  C12 — GenBank export is faithful to an independent reader and to BioCantor's parsers.
+
+  Model  : Model/GenbankWrite.lean  (writer as data: gene_to_feature, transcripts_to_feature, add_cds_feature,
+                                     feature_intervals_to_features, export_qualifiers, to_biopython)
+           Model/GenbankParse.lean  (parser as list functions: position/type sort, grouping by type, grouping by locus
+                                     tag, Hybrid collision routing, _convert_seqfeature_to_gene, to_gene_model with
+                                     find_exon_interval / find_cds_interval / construct_frames)
+  Spec   : Spec/Genbank.lean        (clauses (a) written records + independent reader, (b) gene models read back,
+                                     (c) agreement of the three strategies; judged on the REAL code's answers by
+                                     drivers/SpecC12.lean on every run)
+  Proofs : Proofs/Gb*.lean
+
+  Theorems (all about the model, for ANY number of genes / transcripts / blocks):
+
+    T1  write_structure_ok            every gene, transcript, CDS, feature collection and feature interval of a
+                                      single-strand collection has a record of the documented type with exactly the
+                                      source blocks, the source strand and the source identifiers — for both writer
+                                      rules (block order of minus-strand parts does not matter to this clause).
+        cds_record_reading_frame      with `/codon_start` written (the code as it is since bc2bc66) an independent
+                                      reader assumes exactly the source's start frame for every CDS record.
+        cds_record_translation        a `/translation` written on request is C05's `Model.translate` of the source CDS
+                                      with table 11 (prokaryotic) / 0 (eukaryotic); C05 (Props/C05.lean, T3b) proves that
+                                      this is the standard-code translation of the CDS codons.
+    T3  grouping_modes_agree_partial  on feature lists that are fixed points of the parser's own sort and consist of
+        parse_modes_agree_partial     one chain per locus tag (gene, then mRNA/CDS records, or one non-coding
+                                      transcript), Sorted, LocusTag and Hybrid produce the same groups, hence the same
+                                      gene models.  PARTIAL: the chains' tags are assumed to increase along the file
+                                      (locus tags numbered along the genome, as in INSDC files), which makes the
+                                      locus-tag sort the identity; the general statement (tags in any order, groups
+                                      equal up to order) is checked on the real parser by the `gbm` leg.
+    T2  (round trip `parseModel (writeModel c) = expected c`) is NOT proved here.  Proved parts: T1 (what is written) and
+        T3 (how it is regrouped).  The conversion of one group to a gene model (exon sort, CDS clipping through
+        `intersection`, frames through `construct_frames_from_location`, identifiers from qualifiers) is tied to the real
+        code by the `gbp`/`gbrt` correspondence and judged by `Spec.Gb.rtViolations` on every run, exhaustively for one
+        gene with <= 2 exons on [0,7] x every CDS clip x strand x start frame x flavour x parser mode.
+        FULL STATEMENT: for single-strand collections of genes with ONE transcript each, unique effective locus tags
+        (locus-tag / hybrid) or a position-sorted written list (sorted), CDS blocks not separated by 0-bp gaps (F-C12c),
+        `okRoundTrip fl c (ans (parseModel m (writeModel ⟨fl, true, false, rule⟩ c))) = true` with
+        `rule.emitsCodonStart = true`.
+-/
+import BioCantor.Proofs.GbWriteFc
+import BioCantor.Proofs.GbModes
+import BioCantor.Proofs.GbRoundTrip
 namespace BioCantor.Props.C12
-theorem placeholder : True := trivial
+open BioCantor BioCantor.Spec.Qual BioCantor.Spec.Gb BioCantor.Model.Gb BioCantor.Proofs.Gb
+
+/-- the structural clauses of (a) for one item of the collection -/
+def itemStructClauses (fl : Flavor) (rs : List Rec) : Item → List String
+  | .gene g => geneStructClauses fl rs g
+  | .fcoll f => fcClauses rs f
+
+/-- **T1** every gene / transcript / CDS / feature collection / feature interval of a single-strand collection
+    (`writeDomain`) is written as a record of the documented type with exactly the source blocks, strand and
+    identifiers — whatever the flavour, `force_strand`, `update_translations` and writer rule. -/
+theorem write_structure_ok (cfg : Cfg) (c : Coll) (rs : List Rec) (hw : writeModel cfg c = .ok rs)
+    (hd : writeDomain c = true) : ∀ it ∈ c.items, itemStructClauses cfg.flavor rs it = [] := by
+  intro it hit
+  have hwf : itemWF it = true := by
+    unfold writeDomain at hd
+    exact List.all_eq_true.mp hd it hit
+  cases it with
+  | gene g => exact gene_struct_ok cfg c rs hw g hit hwf
+  | fcoll f => exact fc_struct_ok cfg c rs hw f hit hwf
+
+/-- **T1, reading frame**: a CDS record written with `/codon_start` (writer rule `emitsCodonStart`, the code as it is)
+    tells an independent reader exactly the source's start frame. -/
+theorem cds_record_reading_frame (cfg : Cfg) (seq : Option Str) (t : Tx) (q : QDict) (strand : Strand) (c : Rec)
+    (hc : addCdsFeature cfg seq t q strand = .ok c) (hr : cfg.rule.emitsCodonStart = true) :
+    readerFrame c = some (startFrameNat t) := by
+  have hq : qualGet Spec.Gb.kCodonStart c.quals = [frameDigit ((startFrame t).getD .ZERO)] := by
+    rcases addCds_shape cfg seq t q strand c hc with rfl | ⟨p, _, _, rfl⟩
+    · simp only [cdsRecord, cdsBaseQuals, hr, if_true]
+      exact qualGet_dictSet_same _ _ _
+    · simp only [cdsRecord, cdsBaseQuals, hr, if_true]
+      rw [qualGet_dictSet_other _ _ _ _ (by decide)]
+      exact qualGet_dictSet_same _ _ _
+  unfold readerFrame
+  rw [hq]
+  unfold startFrameNat
+  cases startFrame t with
+  | none => rfl
+  | some f => cases f <;> rfl
+
+/-- **T1, translation**: when a translation is requested and C05's `translate` of the source CDS succeeds, the value
+    of `/translation` is exactly that protein. -/
+theorem cds_record_translation (cfg : Cfg) (seq : Option Str) (t : Tx) (q : QDict) (strand : Strand) (c : Rec)
+    (hc : addCdsFeature cfg seq t q strand = .ok c) (hu : cfg.updateTranslations = true) (p : Str)
+    (hp : proteinOf cfg.flavor seq t = .ok p) : qualGet kTranslation c.quals = [p] := by
+  unfold addCdsFeature at hc
+  rw [if_pos hu, hp] at hc
+  simp only [Except.ok.injEq] at hc
+  subst hc
+  exact qualGet_dictSet_same _ _ _
+
+/-- **T3** (grouping; PARTIAL, see the header) on tagged chains that are a fixed point of the parser's position sort
+    the three strategies form the same groups: one per chain, holding the chain's `gene` record, its transcript
+    records (the first one only when there are several transcripts AND several CDSs) and its CDS records. -/
+theorem grouping_modes_agree_partial (tch : List (Str × List Rec)) (h : ModesInput tch) (m : Mode) :
+    extract m (recsOf tch) = .ok ⟨chainGroups tch, 0⟩ :=
+  extract_modes_agree tch h m
+
+/-- **T3** (gene models; PARTIAL): hence the parse does not depend on the strategy, for either parser rule. -/
+theorem parse_modes_agree_partial (rule : ParserRule) (tch : List (Str × List Rec)) (h : ModesInput tch) (m m' : Mode) :
+    parseModelWith rule m (recsOf tch) = parseModelWith rule m' (recsOf tch) :=
+  parse_modes_agree rule tch h m m'
+
+/-- **T2, proved part** (`_partial`): what the writer model produces for a collection of well-formed genes with ONE
+    transcript each and an effective locus tag is a list of chains `gene, [mRNA,] CDS` / `gene, <non-coding key>`, one
+    per gene, each carrying that gene's tag; when the tags increase along the file, every record passes
+    `validate_seqfeature` and the list is a fixed point of the parser's position sort, Sorted, LocusTag and Hybrid all
+    regroup it gene by gene (`chainGroups`: the gene record, its transcript record, its CDS record).
+    MISSING for the full T2 (see the header): the conversion of one such group into the gene model
+    (`convertGroup` / `toGeneModel`: exon sort, CDS clipping, frames, identifiers) equals `Spec.Gb.expectedGene`. -/
+theorem written_collection_regrouped_partial (cfg : Cfg) (c : Coll) (rs : List Rec) (hw : writeModel cfg c = .ok rs)
+    (hall : ∀ it ∈ c.items, GeneItemOK it)
+    (hasc : ((childrenOf c).filterMap itemTag).Pairwise (fun a b => strLt a b = true))
+    (hvalid : ∀ r ∈ rs, validFeature r = true) (hsorted : sortByPositionAndType rs = rs) (m : Mode) :
+    ∃ tch : List (Str × List Rec), rs = recsOf tch ∧ tch.length = c.items.length ∧
+      extract m rs = .ok ⟨chainGroups tch, 0⟩ :=
+  written_collection_regrouped cfg c rs hw hall hasc hvalid hsorted m
+
+/-! ### the hypotheses are satisfiable by non-trivial inputs -/
+
+/-- a minus-strand coding gene with two exons, CDS clipped inside them, start frame 1 -/
+def exTx : Tx :=
+  { strand := .minus, exons := [(10, 20), (30, 42)], cds := [(12, 20), (30, 40)], frames := [.ONE, .ONE],
+    txId := some "tx1".toList, txSymbol := some "TS".toList, txType := some "mRNA".toList,
+    proteinId := some "p1".toList, product := none, quals := [("note".toList, ["x".toList, "x".toList])] }
+def exGene : Gene :=
+  { geneId := some "g1".toList, geneSymbol := none, geneType := some "protein_coding".toList, locusTag := none,
+    quals := [], txs := [exTx] }
+/-- a plus-strand tRNA gene further right -/
+def exTx2 : Tx :=
+  { strand := .plus, exons := [(50, 60)], cds := [], frames := [], txId := some "tx2".toList, txSymbol := none,
+    txType := some "tRNA".toList, proteinId := none, product := none, quals := [] }
+def exGene2 : Gene :=
+  { geneId := none, geneSymbol := some "trnA".toList, geneType := some "tRNA".toList, locusTag := some "LT_2".toList,
+    quals := [], txs := [exTx2] }
+/-- the two genes alone (effective tags `g1` < `h_2`) -/
+def exGene2' : Gene := { exGene2 with locusTag := some "h_2".toList }
+def exColl2 : Coll := ⟨none, [.gene exGene, .gene exGene2']⟩
+def exCfg2 : Cfg := ⟨.eukaryotic, true, false, currentWriterRule⟩
+def exRs2 : List Rec :=
+  match mapMR (itemToFeatures exCfg2 exColl2.seq) exColl2.items with
+  | .ok rss => rss.flatten
+  | .error _ => []
+def exFc : FColl :=
+  { name := none, id := some "fc1".toList, type := none, locusTag := none, quals := [],
+    feats := [{ strand := .plus, blocks := [(70, 72), (75, 80)], featName := some "F".toList, featId := none,
+                types := ["promoter".toList], quals := [] }] }
+def exColl : Coll := ⟨none, [.gene exGene, .gene exGene2, .fcoll exFc]⟩
+def exCfg : Cfg := ⟨.eukaryotic, true, false, currentWriterRule⟩
+
+example : writeDomain exColl = true := by decide +kernel
+
+theorem exColl_children : childrenOf exColl = exColl.items := by
+  unfold childrenOf
+  rw [List.mergeSort_of_pairwise (by decide +kernel)]
+  rfl
+
+def typesWritten (r : Model.R (List Rec)) : Option (List Str) :=
+  match r with | .ok rs => some (rs.map (·.type)) | .error _ => none
+
+/-- the model writes that collection (`hw` of T1 holds for it): gene, mRNA, CDS / gene, tRNA / misc_feature,
+    feat_interval -/
+example : typesWritten (writeModel exCfg exColl) =
+    some ["gene".toList, "mRNA".toList, "CDS".toList, "gene".toList, "tRNA".toList, "misc_feature".toList,
+          "feat_interval".toList] := by
+  unfold writeModel
+  rw [exColl_children]
+  decide +kernel
+
+def codonStartWritten (r : Model.R Rec) : Option (List Str) :=
+  match r with | .ok c => some (qualGet Spec.Gb.kCodonStart c.quals) | .error _ => none
+
+/-- a CDS record is produced for `exTx`, with `/codon_start=2` under the current rule -/
+example : codonStartWritten (addCdsFeature exCfg none exTx [] .minus) = some ["2".toList] ∧
+    exCfg.rule.emitsCodonStart = true := by decide +kernel
+
+theorem exColl2_children : childrenOf exColl2 = exColl2.items := by
+  unfold childrenOf
+  rw [List.mergeSort_of_pairwise (by decide +kernel)]
+  rfl
+
+/-- hypotheses of `written_collection_regrouped_partial` on a minus-strand two-exon coding gene + a tRNA gene -/
+example : writeModel exCfg2 exColl2 = .ok exRs2 ∧ (∀ it ∈ exColl2.items, GeneItemOK it) ∧
+    ((childrenOf exColl2).filterMap itemTag).Pairwise (fun a b => strLt a b = true) ∧
+    (∀ r ∈ exRs2, validFeature r = true) ∧ sortByPositionAndType exRs2 = exRs2 ∧ exRs2.length = 5 := by
+  refine ⟨?_, ?_, ?_, ?_, ?_, ?_⟩
+  · unfold writeModel
+    rw [exColl2_children]
+    have hok : (mapMR (itemToFeatures exCfg2 exColl2.seq) exColl2.items).toBool = true := by decide +kernel
+    unfold exRs2
+    cases h : mapMR (itemToFeatures exCfg2 exColl2.seq) exColl2.items with
+    | error e => rw [h] at hok; exact absurd hok (by simp [Except.toBool])
+    | ok rss => rfl
+  · intro it hit
+    simp only [exColl2, List.mem_cons, List.not_mem_nil, or_false] at hit
+    rcases hit with rfl | rfl
+    · exact ⟨exGene, exTx, "g1".toList, rfl, by decide +kernel, rfl, by decide +kernel⟩
+    · exact ⟨exGene2', exTx2, "h_2".toList, rfl, by decide +kernel, rfl, by decide +kernel⟩
+  · rw [exColl2_children]; decide +kernel
+  · decide +kernel
+  · unfold sortByPositionAndType
+    exact List.mergeSort_of_pairwise (by decide +kernel)
+  · decide +kernel
+
+/-- two tagged chains (gene, mRNA, CDS on the minus strand; gene, tRNA) in file order = tag order -/
+def exRec (ty : String) (st : Strand) (parts : List Blk) (tag : String) : Rec :=
+  { type := ty.toList, strand := st, parts := parts, quals := [("locus_tag".toList, [tag.toList])] }
+def exChains : List (Str × List Rec) :=
+  [("LT_1".toList, [exRec "gene" .minus [(10, 42)] "LT_1", exRec "mRNA" .minus [(10, 20), (30, 42)] "LT_1",
+                    exRec "CDS" .minus [(12, 20), (30, 40)] "LT_1"]),
+   ("LT_2".toList, [exRec "gene" .plus [(50, 60)] "LT_2", exRec "tRNA" .plus [(50, 60)] "LT_2"])]
+
+example : ModesInput exChains where
+  tagged :=
+    { chains := by
+        intro p hp
+        simp only [exChains, List.mem_cons, List.not_mem_nil, or_false] at hp
+        rcases hp with rfl | rfl
+        · exact ⟨by simp, fun g hg => by simp only [List.head?_cons, Option.some.injEq] at hg; subst hg; decide +kernel,
+            Or.inl (by
+              intro r hr
+              simp only [List.tail_cons, List.mem_cons, List.not_mem_nil, or_false] at hr
+              rcases hr with rfl | rfl
+              · exact Or.inl (by decide +kernel)
+              · exact Or.inr (by decide +kernel))⟩
+        · exact ⟨by simp, fun g hg => by simp only [List.head?_cons, Option.some.injEq] at hg; subst hg; decide +kernel,
+            Or.inr ⟨_, rfl, by decide +kernel⟩⟩
+      tags := by
+        intro p hp r hr
+        simp only [exChains, List.mem_cons, List.not_mem_nil, or_false] at hp
+        rcases hp with rfl | rfl <;>
+          (simp only [List.mem_cons, List.not_mem_nil, or_false] at hr
+           rcases hr with rfl | rfl | rfl <;> rfl) 
+      ascending := by decide +kernel }
+  valid := by
+    intro r hr
+    have : ∀ x ∈ recsOf exChains, validFeature x = true := by decide +kernel
+    exact this r hr
+  sorted := by
+    unfold sortByPositionAndType
+    exact List.mergeSort_of_pairwise (by decide +kernel)
+
 end BioCantor.Props.C12
